@@ -69,7 +69,7 @@ def calls(draw):
                      sk_a=draw(st.binary(min_size=a[1], max_size=a[1])).hex(),
                      lifetime=draw(st.one_of(st.just(-1), st.sampled_from([1, 5, 300, 2 ** 31]), st.integers(1, 10 ** 6))))
         else:
-            c.update(direction=draw(st.sampled_from([0, 1, 2])), index=draw(st.one_of(st.just(0), st.integers(0, 2 ** 23))))
+            c.update(direction=draw(st.sampled_from([0, 1, 2])), index=draw(st.one_of(st.just(0), st.integers(0, 2 ** 23), st.sampled_from([2 ** 31 - 7, 2 ** 31 + 1, 2 ** 32 - 7]))))
     elif kind == 'delete':
         v6 = draw(st.booleans())
         c.update(daddr=draw(addrs(v6)), proto=draw(st.sampled_from([50, 51])), spi=draw(st.binary(min_size=4, max_size=4)).hex())
@@ -246,7 +246,9 @@ def events(draw):
         f6, s6 = draw(st.booleans()), draw(st.booleans())
         e.update(fam=10 if f6 else 2, sfam=10 if s6 else 2, peer=draw(addrs(f6)), me=draw(addrs(f6)),
                  saddr=draw(addrs(s6)), daddr=draw(addrs(s6)), sport=draw(ports), dport=draw(ports),
-                 proto=draw(st.integers(0, 255)), index=draw(st.integers(0, 2 ** 28)),
+                 proto=draw(st.integers(0, 255)),
+                 index=draw(st.one_of(st.integers(0, 2 ** 28), st.sampled_from([2 ** 31 - 7, 2 ** 31, 2 ** 31 + 9, 2 ** 32 - 7,
+                                                                                 2 ** 32 - 1]), st.integers(0, 2 ** 32 - 1))),
                  prefix_s=draw(st.integers(0, 128 if s6 else 32)), prefix_d=draw(st.integers(0, 128 if s6 else 32)),
                  tmpl_mode=draw(st.sampled_from([0, 1])), tmpl_proto=draw(st.sampled_from([50, 51])))
     elif kind == 'expire':
